@@ -300,6 +300,11 @@ class QueueChecker:
                                % item)
         if final != [item for item in self.put_order if item in final_set]:
             self.violation('fifo', 'final buffer %s is not in put order' % final)
+        # `closed` tells whether the queue has been closed
+        self.stats['closed_property_checks'] = self.stats.get('closed_property_checks', 0) + 1
+        if self.queue.closed is not self.closed:
+            self.violation('closed-property', 'queue.closed is %r at quiescence, close() was %s'
+                           % (self.queue.closed, 'called' if self.closed else 'never called'))
         # nobody keeps waiting while there is something to receive (or the queue is closed)
         self.stats['quiescent_waiters_checked'] = self.stats.get(
             'quiescent_waiters_checked', 0) + len(self.pending)
